@@ -11,7 +11,8 @@ import mp_common as M
 
 TRUSTED_BASE_MPLOAD = [
     "coq/MpLoadModel.v: shapes of load targets, load_spec (what the generic layer makes of the scopes' answers), the request programs elem_prog / member_prog; hand-written from serialization_base_types.h / generic_container.h; tied to /repo by this correspondence (drv_mpload: LoadObject through the public API)",
-    "not modelled: std::map targets (values are loaded from inside the VisitKeys callback), std::vector<bool>, tuples, validation; documents with keys of unsupported kinds or duplicate keys are outside the specification (the object scope throws on an unsupported key kind)",
+    "std::map<K,V> targets (K = std::string or an integer type, MapLoadMode::Clean) are modelled for archive keys of K's class (string / integer) that convert to pairwise different K; documents whose maps meet a std::map target with a key of another class (text <-> number conversions, float / double / timestamp keys) or with equal keys are answered UNMODELLED by the model driver and only required not to crash (counted in the evidence as class 'unmodelled')",
+    "not modelled: MapLoadMode::OnlyExistKeys / UpdateKeys, std::tuple / std::pair (the tuple loader swallows OutOfRange under the Skip policy), validation; documents with keys of unsupported kinds or duplicate keys are outside the specification (the object scope throws on an unsupported key kind)",
     "glue: harness/drv_mpload.cpp (dynamic node tree; an element reset to value_type() is printed as the value-initialised element of the static element type), ml/mpload_driver.ml, props/C01mp.py (independent Python evaluation of the load)",
 ]
 
@@ -32,7 +33,7 @@ def drivers(vlib):
     return impl, saver, model
 
 
-# ---------------------------------------------------------------- shapes: ('n',) ('B',) ('i',kind) ('f',) ('d',) ('s',) ('b',) ('[',e) ('{',[(name,shape)])
+# ---------------------------------------------------------------- shapes: ('n',) ('B',) ('i',kind) ('f',) ('d',) ('s',) ('b',) ('[',e) ('{',[(name,shape)]) ('<',kshape,vshape) ('(',n,e) ('v',)
 
 def rand_shape(rng, depth=0):
     k = rng.random()
@@ -52,8 +53,15 @@ def rand_shape(rng, depth=0):
         return ("s",)
     if k < 0.62:
         return ("b",)
-    if k < 0.80:
+    if k < 0.72:
         return ("[", rand_shape(rng, depth + 1))
+    if k < 0.76:
+        return ("(", rng.choice([0, 1, 2, 3, 5]), rand_shape(rng, depth + 1))
+    if k < 0.78:
+        return ("v",)
+    if k < 0.88:
+        ks = ("s",) if rng.random() < 0.5 else ("i", rng.choice(list(IKINDS)))
+        return ("<", ks, rand_shape(rng, depth + 1))
     n = rng.choice([0, 1, 2, 3, 4, 6]) if depth < 2 else rng.randrange(0, 3)
     names = []
     while len(names) < n:
@@ -81,7 +89,32 @@ def shape_text(s):
         return "b-"
     if t == "[":
         return "[" + shape_text(s[1]) + "]"
+    if t == "<":
+        return "<" + shape_text(s[1]) + "=" + shape_text(s[2]) + ">"
+    if t == "(":
+        return "(%d|%s)" % (s[1], shape_text(s[2]))
+    if t == "v":
+        return "v"
     return "{" + ";".join("s%s=%s" % (M.hx(nm), shape_text(x)) for nm, x in s[1]) + "}"
+
+
+def key_text(ks, k):
+    return "s" + M.hx(k) if ks[0] == "s" else "i%s:%s" % (ks[1], shex(k))
+
+
+def rand_map_keys(rng, ks, n):
+    keys = set()
+    tries = 0
+    while len(keys) < n and tries < 100:
+        tries += 1
+        if ks[0] == "s":
+            keys.add(bytes(rng.choice(b"abAB\x01\x7f\x80\xff_z") for _ in range(rng.choice([0, 1, 1, 2, 3, 5, 32]))))
+        else:
+            lo, hi = IKINDS[ks[1]]
+            z = rng.choice([lo, hi - 1, 0, 1, -1, 127, 128, 255, 256, rng.randrange(lo, hi)])
+            if lo <= z < hi:
+                keys.add(z)
+    return sorted(keys)      # std::less: integers by value, strings bytewise unsigned with a proper prefix first = Python's order on bytes
 
 
 def rand_value(rng, s, depth=0):
@@ -115,6 +148,20 @@ def rand_value(rng, s, depth=0):
         n = rng.choice([0, 1, 2, 3, 15, 16, 17]) if depth < 2 else rng.randrange(0, 3)
         items = [rand_value(rng, s[1], depth + 1) for _ in range(n)]
         return "[" + ";".join(a for a, _, _ in items) + "]", "[" + ";".join(b for _, b, _ in items) + "]", [v for _, _, v in items]
+    if t == "(":
+        items = [rand_value(rng, s[2], depth + 1) for _ in range(s[1])]
+        return "[" + ";".join(a for a, _, _ in items) + "]", "[" + ";".join(b for _, b, _ in items) + "]", [v for _, _, v in items]
+    if t == "v":
+        items = [rng.random() < 0.5 for _ in range(rng.choice([0, 1, 2, 3, 9, 17]))]
+        x = "[" + ";".join("T" if b else "F" for b in items) + "]"
+        return x, x, list(items)
+    if t == "<":
+        n = rng.choice([0, 1, 2, 3, 5, 16]) if depth < 2 else rng.randrange(0, 3)
+        keys = rand_map_keys(rng, s[1], n)
+        items = [(k, rand_value(rng, s[2], depth + 1)) for k in keys]
+        return ("{" + ";".join("%s=%s" % (key_text(s[1], k), a) for k, (a, _, _) in items) + "}",
+                "{" + ";".join("%s=%s" % (key_text(s[1], k), b) for k, (_, b, _) in items) + "}",
+                ("map", [(k, v) for k, (_, _, v) in items]))
     items = [(nm, rand_value(rng, x, depth + 1)) for nm, x in s[1]]
     return ("{" + ";".join("s%s=%s" % (M.hx(nm), a) for nm, (a, _, _) in items) + "}",
             "{" + ";".join("s%s=%s" % (M.hx(nm), b) for nm, (_, b, _) in items) + "}",
@@ -154,6 +201,12 @@ def default_text(s):
         return shape_text(s)
     if t == "[":
         return "[]"
+    if t == "<":
+        return "{}"
+    if t == "(":
+        return "[" + ";".join(default_text(s[2]) for _ in range(s[1])) + "]"
+    if t == "v":
+        return "[]"
     return "{" + ";".join("s%s=%s" % (M.hx(nm), default_text(x)) for nm, x in s[1]) + "}"
 
 
@@ -169,8 +222,30 @@ def py_load(pol, s, v):
             raise Stop("O")
         return None
     t = s[0]
-    if t in "[{b" and v is None:
+    if t in "[{b<(v" and v is None:
         return None
+    if t == "(":
+        # SerializeFixedSizeArray: elements while both sides have one, then OutOfRange unless both are exhausted
+        if not isinstance(v, list):
+            return mism()
+        out = []
+        for x in v[:s[1]]:
+            r = py_load(pol, s[2], x)
+            out.append(default_text(s[2]) if r is None else r)
+        if len(v) != s[1]:
+            raise Stop("R")
+        return "[" + ";".join(out) + "]"
+    if t == "v":
+        # std::vector<bool>: one local bool is loaded and assigned, loaded or not
+        if not isinstance(v, list):
+            return mism()
+        out, cur = [], "F"
+        for x in v:
+            r = py_load(pol, ("B",), x)
+            if r is not None:
+                cur = r
+            out.append(cur)
+        return "[" + ";".join(out) + "]"
     if t == "[":
         if not isinstance(v, list):
             return mism()
@@ -189,6 +264,32 @@ def py_load(pol, s, v):
             r = py_load(pol, ("i", "u8"), x)
             out.append(0 if r is None else int(r.split(":")[1], 16))
         return "b" + M.hx(bytes(out))
+    if t == "<":
+        # SerializeMapImpl, Clean: per member in document order convert the key, insert, load the mapped value
+        if not (isinstance(v, tuple) and v[0] == "map"):
+            return mism()
+        out = {}
+        for k, x in v[1]:
+            if isinstance(k, bool) or k is None or isinstance(k, list) or (isinstance(k, tuple) and k[0] in ("bin", "map")):
+                raise Unjudged("key of an unsupported kind")
+            if s[1][0] == "s":
+                if not isinstance(k, bytes):
+                    raise Unjudged("key of another class than the map's key type")
+                key = k
+            else:
+                if not isinstance(k, int):
+                    raise Unjudged("key of another class than the map's key type")
+                lo, hi = IKINDS[s[1][1]]
+                if not (lo <= k < hi):
+                    if pol[1] == "T":
+                        raise Stop("O")
+                    continue
+                key = k
+            if key in out or sum(1 for k2, _ in v[1] if k2 == k and type(k2) is type(k)) > 1:
+                raise Unjudged("duplicate keys")
+            r = py_load(pol, s[2], x)
+            out[key] = default_text(s[2]) if r is None else r
+        return "{" + ";".join("%s=%s" % (key_text(s[1], k), out[k]) for k in sorted(out)) + "}"
     if t == "{":
         if not (isinstance(v, tuple) and v[0] == "map"):
             return mism()
@@ -272,6 +373,35 @@ def perturb(rng, s, v, depth=0):
         if rng.random() < 0.2:
             out.append(other_value(rng))
         return out
+    if t == "(" and isinstance(v, list):
+        out = [perturb(rng, s[2], x, depth + 1) for x in v]
+        r = rng.random()
+        if r < 0.15:
+            out.append(other_value(rng))
+        elif r < 0.3 and out:
+            out.pop()
+        return out
+    if t == "v" and isinstance(v, list):
+        out = [other_value(rng) if rng.random() < 0.25 else x for x in v]
+        if rng.random() < 0.2:
+            out.insert(0, rng.choice([None, b"x", 7]))
+        return out
+    if t == "<" and isinstance(v, tuple):
+        kvs = [(k, perturb(rng, s[2], x, depth + 1)) for k, x in v[1]]
+        if rng.random() < 0.6:
+            rng.shuffle(kvs)
+        have = set(k for k, _ in kvs)
+        for _ in range(rng.choice([0, 0, 1, 2])):
+            if s[1][0] == "s":
+                ek = rng.choice([b"zz%d" % rng.randrange(100), b"", b"\xff"])
+            else:
+                ek = rng.choice([rng.randrange(-300, 70000), 1 << 40, -(1 << 40), (1 << 64) - 1, -(1 << 63), rng.randrange(-5, 5)])
+            if rng.random() < 0.08:     # a key of another class: the model answers UNMODELLED
+                ek = rng.choice([b"12", 7, ("f64", 0x3ff0000000000000), ("f32", 0x7fc00000)])
+            if ek not in have:
+                have.add(ek)
+                kvs.insert(rng.randrange(len(kvs) + 1), (ek, perturb(rng, s[2], rand_value(rng, s[2], 3)[2], depth + 1) if rng.random() < 0.7 else other_value(rng)))
+        return ("map", kvs)
     if t == "{" and isinstance(v, tuple):
         kvs = [(k, perturb(rng, dict(s[1])[k], x, depth + 1)) for k, x in v[1]]
         r = rng.random()
@@ -337,6 +467,13 @@ def run_mpload(ctx, vlib):
             seen.add(line)
             if len(t[4]) > 4:
                 nontrivial += 1
+        if b == "UNMODELLED":
+            # outside `modelled` (key of another class than the map's key type, equal keys): only no crash is required
+            classes["unmodelled"] = classes.get("unmodelled", 0) + 1
+            if a.startswith(("CRASH", "SANITIZER", "HANG", "TERMINATE")) and len(failing) < 20:
+                failing.append(dict(driver="mpload", case=line, implementation=a, model=b, judge="FAIL", why="crash on a document outside the modelled domain"))
+            verdicts["UNKNOWN"] = verdicts.get("UNKNOWN", 0) + 1
+            continue
         exp = expected(t[2], shapes[t[3]], bytes.fromhex(t[4]) if t[4] != "-" else b"")
         rt_ok = text is None or a == "OK " + text
         if exp is None:
@@ -358,7 +495,7 @@ def run_mpload(ctx, vlib):
     samples = [dict(case=cases[i][:400], implementation=oi[i][:200], model=om[i][:200]) for i in range(0, len(cases), step)][:3]
     return dict(evaluations=len(cases), distinct_nontrivial=nontrivial, samples=samples, classes=classes, failing=failing, diffs=diffs,
                 known_lines=[], extra=dict(mpload_verdicts=verdicts),
-                rule="typed load of whole value trees through LoadObject<MsgPackArchive> (string and istream): random shapes (all integer kinds, bool, nullptr, float, double, string, byte container, nested vectors, classes with up to 6 string-named members, depth <= 4); documents = the implementation's own SaveObject output of a random value of the shape, the independent Python encoder's output with random format widths, and perturbed documents (members permuted / dropped / added, values of other kinds, extra elements) under the four policy combinations; compared with the extracted specification load_bytes and with an independent Python evaluation; saved documents must load back to the saved tree",
+                rule="typed load of whole value trees through LoadObject<MsgPackArchive> (string and istream): random shapes (all integer kinds, bool, nullptr, float, double, string, byte container, nested vectors, classes with up to 6 string-named members, std::map<std::string, V> and std::map<integer type, V> for all eight integer types, std::array<V, N> with N in 0..5, std::vector<bool>, depth <= 4); documents = the implementation's own SaveObject output of a random value of the shape, the independent Python encoder's output with random format widths, and perturbed documents (members permuted / dropped / added, map entries permuted and added with keys in and out of the key type's range and occasionally of another class, values of other kinds, extra elements) under the four policy combinations; compared with the extracted specification load_bytes and with an independent Python evaluation; saved documents must load back to the saved tree",
                 broken="correspondence MsgPack typed load specification vs LoadObject<MsgPackArchive> (drv_mpload)")
 
 
